@@ -24,7 +24,8 @@ from vf.core import fs, fl, frac
 from extract import uniform_grid as extract_uniform_grid
 
 RULE = ('a case is one operation (props, index, getitem, insert, append, squeeze, byaxis, uniform, '
-        'fromintv, fromgrid, nonuniform) on one generated partition / parameter set, or one partition '
+        'fromintv, fromgrid, nonuniform, nd = size/is_uniform/cell_volume/has_isotropic_cells/points()/index of every '
+        'grid point, equiv = uniform partition vs nonuniform_partition and uniform_partition_fromgrid of its grid) on one generated partition / parameter set, or one partition '
         'observed after a history (2-3 partitions built on one SHARED RectGrid object over different '
         'domains, optionally one more sharing the IntervalProd object, and 7-17 interleaved queries, '
         'each of which must equal the answer of a freshly built equal partition), or one ownership test (every '
@@ -112,6 +113,9 @@ def parse_part_answer(ans):
 
 def dyadic(q):
     return (q.denominator & (q.denominator - 1)) == 0
+
+
+is_dyadic = dyadic
 
 
 def close(a, b, exact, scale):
@@ -1569,6 +1573,230 @@ def ownership_cases(rng, reps):
 
 
 # ---------------------------------------------------------------------------
+# round 4: n-d derived quantities (`nd`) and the constructor equivalences (`equiv`)
+
+def gen_nd_desc(rng, exact):
+    """A partition with at most 120 cells; on the exact stream 30% are uniform n-d partitions whose cell
+    sides are equal / nearly equal (ratio 1 + 2^-k around the 1e-5 of np.allclose) / different."""
+    if exact and rng.random() < 0.3:
+        nd = rng.choice([2, 2, 3])
+        h0 = F(rng.choice([1, 2, 4]), 8)
+        cs, los, his = [], [], []
+        for ax in range(nd):
+            n = rng.choice([1, 2, 3, 4])
+            t = rng.choice(['same', 'same', 'near', 'far']) if ax else 'same'
+            h = h0 if t == 'same' else (h0 * (1 + F(1, 2 ** rng.randint(13, 20))) if t == 'near' else h0 * 2)
+            bl, br = rng.random() < 0.5, rng.random() < 0.5
+            lo = dy(rng)
+            if n == 1:
+                # a length-1 axis: the cell side is the extent of the set
+                cs.append([lo + (0 if bl else h / 2)])
+                los.append(lo)
+                his.append(lo + h)
+                continue
+            start = lo if bl else lo + h / 2
+            c = [start + i * h for i in range(n)]
+            cs.append(c)
+            los.append(lo)
+            his.append(c[-1] if br else c[-1] + h / 2)
+        return {'c': cs, 'lo': los, 'hi': his}
+    while True:
+        d = gen_desc(rng, exact)
+        if ncells(d) <= 120:
+            return d
+
+
+def case_nd(rng, exact):
+    desc = gen_nd_desc(rng, exact)
+    rp = {'op': 'nd', 'part': desc_json(desc), 'exact': exact}
+    return run_nd(desc, exact, rp)
+
+
+def np_isclose(a, b):
+    return abs(a - b) <= F(1, 10 ** 8) + F(1, 10 ** 5) * abs(b)
+
+
+def run_nd(desc, exact, rp):
+    line = 'nd ' + wire_part(desc)
+    p, err = guarded(lambda: build(desc))
+    if p is None:
+        return Case('nd', line, None, [('constructor', 'valid partition rejected: ' + err)], None, rp, exact)
+
+    def call():
+        pts = p.points()
+        ptsf = p.points(order='F')
+        idx = []
+        for row in pts:
+            arg = float(row[0]) if p.ndim == 1 else [float(x) for x in row]
+            i = p.index(arg)
+            idx.append([int(i)] if p.ndim == 1 else [int(k) for k in i])
+        vol = float(p.cell_volume)
+        return {'size': int(p.size), 'uni': bool(p.is_uniform), 'iso': bool(p.has_isotropic_cells),
+                'vol': None if vol != vol else frac(vol),
+                'pts': [[frac(x) for x in row] for row in pts.tolist()],
+                'ptsF': [[frac(x) for x in row] for row in ptsf.tolist()], 'idx': idx}
+    res, err = guarded(call)
+    problems = []
+    if res is None:
+        return Case('nd', line, None, [('nd properties raise', err)], None, rp, exact)
+    cs, los, his = desc['c'], desc['lo'], desc['hi']
+    shape = [len(c) for c in cs]
+    size = ncells(desc)
+    sc = scale_of(desc)
+    tags = set()
+    # oracle 1: size, points() in C and F order, index(point) == its multi-index
+    if res['size'] != size or len(res['pts']) != size or len(res['ptsF']) != size:
+        problems.append(('nd size', 'size={} len(points)={} for shape {}'.format(res['size'], len(res['pts']), shape)))
+    else:
+        for k in range(size):
+            mi = [int(t) for t in np.unravel_index(k, shape)]
+            exp = [cs[ax][i] for ax, i in enumerate(mi)]
+            if res['pts'][k] != exp:
+                problems.append(('nd points C order', 'points()[{}]={} expected {}'.format(k, fl(res['pts'][k]), fl(exp))))
+                break
+            mif = [int(t) for t in np.unravel_index(k, shape, order='F')]
+            expf = [cs[ax][i] for ax, i in enumerate(mif)]
+            if res['ptsF'][k] != expf:
+                problems.append(('nd points F order', 'points(order=F)[{}]={} expected {}'.format(
+                    k, fl(res['ptsF'][k]), fl(expf))))
+                break
+            if res['idx'][k] != mi:
+                problems.append(('nd index of grid point', 'index(points()[{}]={}) = {} expected {}'.format(
+                    k, fl(exp), res['idx'][k], mi)))
+                break
+    # oracle 2: is_uniform / cell_volume / has_isotropic_cells from the coordinates
+    dev = F(0)
+    for c in cs:
+        d = [y - x for x, y in zip(c, c[1:])]
+        if d:
+            dev = max(dev, max(abs(x - d[0]) for x in d) / abs(d[0]))
+    exp_uni = True if dev <= F(1, 10 ** 9) else (False if dev >= F(1, 1000) else None)
+    if exp_uni is not None and res['uni'] != exp_uni:
+        problems.append(('nd is_uniform', 'is_uniform={} but relative stride deviation {}'.format(
+            res['uni'], float(dev))))
+    if exp_uni is True and res['uni']:
+        sides = [(c[-1] - c[0]) / (len(c) - 1) if len(c) > 1 else hi - lo for c, lo, hi in zip(cs, los, his)]
+        vol = F(1)
+        for x in sides:
+            vol *= x
+        vs = max(abs(vol), F(1, 10 ** 30))
+        if res['vol'] is None or not (res['vol'] == vol if exact and dyadic(vol)
+                                      else abs(res['vol'] - vol) <= TOL_REL * vs):
+            problems.append(('nd cell_volume', 'cell_volume={} expected product of cell sides {} = {}'.format(
+                'nan' if res['vol'] is None else fs(res['vol']), fl(sides), fs(vol))))
+        pairs = list(zip(sides[:-1], sides[1:]))
+        margin = [abs(abs(a - b) - (F(1, 10 ** 8) + F(1, 10 ** 5) * abs(b))) for a, b in pairs]
+        exp_iso = all(np_isclose(a, b) for a, b in pairs)
+        if exact or all(m > F(1, 10 ** 12) for m in margin):
+            if res['iso'] != exp_iso:
+                problems.append(('nd has_isotropic_cells', 'has_isotropic_cells={} for cell sides {}'.format(
+                    res['iso'], fl(sides))))
+        tags.add('iso' if exp_iso else 'aniso')
+        if any(a != b and np_isclose(a, b) for a, b in pairs):
+            tags.add('iso-within-tolerance')
+        if any(a != b and not np_isclose(a, b) and abs(a - b) < abs(b) / 1000 for a, b in pairs):
+            tags.add('aniso-near-tolerance')
+        # the tiling reading of cell_volume: regular uniform axes (limits at a node or half a cell out)
+        hcs = []
+        for c, lo, hi, h in zip(cs, los, his, sides):
+            if len(c) < 2 or (c[0] - lo) not in (0, h / 2) or (hi - c[-1]) not in (0, h / 2):
+                hcs = None
+                break
+            hcs.append(F(int(c[0] == lo) + int(c[-1] == hi), 2))
+        if hcs is not None and exact and res['vol'] is not None:
+            cnt, ext = F(1), F(1)
+            for c, lo, hi, hc in zip(cs, los, his, hcs):
+                cnt *= len(c) - hc
+                ext *= hi - lo
+            tags.add('regular')
+            if dyadic(vol) and res['vol'] * cnt != ext:
+                problems.append(('nd cell_volume times count', 'cell_volume {} * {} != volume of the set {}'.format(
+                    fs(res['vol']), fs(cnt), fs(ext))))
+    elif exp_uni is False:
+        tags.add('nonuniform')
+        if res['vol'] is not None:
+            problems.append(('nd cell_volume', 'cell_volume={} on a non-uniform grid (NaN expected)'.format(
+                fs(res['vol']))))
+        if res['iso']:
+            problems.append(('nd has_isotropic_cells', 'has_isotropic_cells=True on a non-uniform grid'))
+    if any(len(c) == 1 for c in cs):
+        tags.add('length-1-axis')
+    if any(c[0] == lo for c, lo in zip(cs, los)):
+        tags.add('node-on-min')
+    if any(c[-1] == hi for c, hi in zip(cs, his)):
+        tags.add('node-on-max')
+    tags.add('{}d'.format(len(cs)))
+    sig = ('nd', exact, shape_class(desc), flags_class(desc), tuple(sorted(tags))) if size >= 2 else None
+    return Case('nd', line, res, problems, sig, rp, exact, sc, kind='nd')
+
+
+def case_equiv(rng, exact):
+    axes = gen_uniform_params(rng, exact)
+    if rng.random() < 0.25:
+        # arbitrary (not side-aligned) limits: the divisions round -> general stream
+        exact = False
+        for a in axes:
+            a['hi'] = a['lo'] + F(rng.randint(1, 40), 8)
+    rp = {'op': 'equiv', 'axes': [dict(n=a['n'], bl=a['bl'], br=a['br'], lo=fs(a['lo']), hi=fs(a['hi']))
+                                  for a in axes], 'exact': exact}
+    return run_equiv(axes, exact, rp)
+
+
+def run_equiv(axes, exact, rp):
+    import odl
+    nd = len(axes)
+    lo = [a['lo'] for a in axes]
+    hi = [a['hi'] for a in axes]
+    ns = [a['n'] for a in axes]
+    flags = [(bool(a['bl']), bool(a['br'])) for a in axes]
+    fw = 'a:' + ','.join('{}{}'.format(int(bl), int(br)) for bl, br in flags)
+    line = 'equiv lo={} hi={} shape={} nob={}'.format(fl(lo), fl(hi), ','.join(str(n) for n in ns), fw)
+    sc = max([abs(v) for v in lo + hi] + [F(1)])
+    intv, err = guarded(lambda: odl.IntervalProd([float(v) for v in lo], [float(v) for v in hi]))
+    p, err = guarded(lambda: odl.uniform_partition_fromintv(intv, ns[0] if nd == 1 else ns,
+                                                           nodes_on_bdry=list(flags)))
+    if p is None:
+        return Case('equiv', line, None, [('equiv uniform_partition_fromintv raises', err)], None, rp, exact, sc,
+                    kind='equiv')
+    pd = desc_of(p)
+
+    def call_q():
+        return desc_of(odl.nonuniform_partition(*p.coord_vectors, nodes_on_bdry=list(flags)))
+
+    def call_r():
+        mn = {i: float(p.min_pt[i]) for i, (bl, br) in enumerate(flags) if bl}
+        mx = {i: float(p.max_pt[i]) for i, (bl, br) in enumerate(flags) if br}
+        return desc_of(odl.uniform_partition_fromgrid(p.grid, min_pt=mn or None, max_pt=mx or None))
+    q, errq = guarded(call_q)
+    r, errr = guarded(call_r)
+    problems = []
+    # oracle: the documented equivalences, stated on the real objects only
+    exp_q = {'c': pd['c'],
+             'lo': [pd['lo'][i] if ns[i] >= 2 else pd['c'][i][0] for i in range(nd)],
+             'hi': [pd['hi'][i] if ns[i] >= 2 else pd['c'][i][0] for i in range(nd)]}
+    if q is None:
+        problems.append(('equiv nonuniform_partition of a uniform grid raises', '{}: {}'.format(line, errq)))
+    elif not parts_equal(q, exp_q, exact, sc):
+        problems.append(('equiv nonuniform_partition of a uniform grid differs', '{}: got {} expected {}'.format(
+            line, show_desc(q), show_desc(exp_q))))
+    must_raise = any(n == 1 and not (bl and br) for n, (bl, br) in zip(ns, flags))
+    if must_raise:
+        if r is not None:
+            problems.append(('equiv uniform_partition_fromgrid invents a limit for a single node',
+                             '{}: got {}'.format(line, show_desc(r))))
+    elif r is None:
+        problems.append(('equiv uniform_partition_fromgrid of a uniform grid raises', '{}: {}'.format(line, errr)))
+    elif not parts_equal(r, pd, exact, sc):
+        problems.append(('equiv uniform_partition_fromgrid of a uniform grid differs',
+                         '{}: got {} expected {}'.format(line, show_desc(r), show_desc(pd))))
+    tags = set('flags{}{}'.format(int(bl), int(br)) for (bl, br), n in zip(flags, ns) if n >= 2)
+    tags |= set('one-node-flags{}{}'.format(int(bl), int(br)) for (bl, br), n in zip(flags, ns) if n == 1)
+    tags.add('fromgrid-raises' if r is None else 'fromgrid-ok')
+    sig = ('equiv', exact, nd, tuple(min(n, 3) for n in ns), tuple(sorted(tags)))
+    return Case('equiv', line, (pd, q, r), problems, sig, rp, exact, sc, kind='equiv')
+
+
+# ---------------------------------------------------------------------------
 # comparison with the model
 
 def compare(ctx, case, ans):
@@ -1629,6 +1857,46 @@ def compare(ctx, case, ans):
             ctx.disagree(rp, 'index={} floating={}'.format(impl[0], fl(impl[1])),
                          'index={} floating={}'.format(mi, fl(mf)))
         return
+    if case.kind == 'nd':
+        d = parse_answer(ans)
+        if impl is None or d is None or '_bad' in (d or {}):
+            if not (impl is None and d is None):
+                ctx.disagree(rp, 'err' if impl is None else 'ok', ans[:300])
+            return
+        m_vol = None if d['vol'] == 'nan' else core.pfrac(d['vol'])
+        m_pts = core.pfmat(d['pts'])
+        m_idx = [None if t == 'err' else [int(x) for x in t.split(',')] for t in d['idx'].split(';')]
+        vs = max(abs(m_vol), F(1, 10 ** 30)) if m_vol is not None else F(1)
+        checks = [('size', impl['size'] == int(d['size']), impl['size'], d['size']),
+                  ('is_uniform', impl['uni'] == (d['uni'] == '1'), impl['uni'], d['uni']),
+                  ('has_isotropic_cells', impl['iso'] == (d['iso'] == '1'), impl['iso'], d['iso']),
+                  ('cell_volume', (impl['vol'] is None) == (m_vol is None) and (
+                      m_vol is None or (impl['vol'] == m_vol if case.exact and is_dyadic(m_vol)
+                                        else abs(impl['vol'] - m_vol) <= TOL_REL * vs)),
+                   impl['vol'], m_vol),
+                  ('points()', impl['pts'] == m_pts, impl['pts'][:6], m_pts[:6]),
+                  ('index(points())', impl['idx'] == m_idx, impl['idx'][:12], m_idx[:12])]
+        for name, ok, a, b in checks:
+            if not ok:
+                ctx.disagree(rp, '{} = {}'.format(name, a), '{} = {}'.format(name, b))
+                return
+        return
+    if case.kind == 'equiv':
+        if impl is None:
+            if ans != 'err':
+                ctx.disagree(rp, 'err', ans[:300])
+            return
+        parts = ans.split(' | ')
+        if len(parts) != 3:
+            ctx.disagree(rp, 'uniform={}'.format(show_desc(impl[0])), ans[:300])
+            return
+        for name, a, t in zip(('uniform_partition_fromintv', 'nonuniform_partition(*coord_vectors)',
+                               'uniform_partition_fromgrid(grid)'), impl, parts):
+            m = parse_part_answer(t)
+            if not parts_equal(a, m, case.exact, case.scale):
+                ctx.disagree(rp, '{} = {}'.format(name, show_desc(a)), '{} = {}'.format(name, show_desc(m)))
+                return
+        return
     m = parse_part_answer(ans)
     if not parts_equal(impl, m, case.exact, case.scale):
         ctx.disagree(rp, show_desc(impl), show_desc(m))
@@ -1649,7 +1917,8 @@ def gen_cases(ctx, budget):
     rng = ctx.rng
     ops = ['props'] * 4 + ['index'] * 5 + ['getitem'] * 7 + ['insert', 'append', 'squeeze', 'squeeze',
                                                              'byaxis', 'byaxis'] + \
-          ['uniform'] * 5 + ['fromintv'] * 3 + ['fromgrid'] * 2 + ['nonuniform'] * 3 + ['history'] * 2
+          ['uniform'] * 5 + ['fromintv'] * 3 + ['fromgrid'] * 2 + ['nonuniform'] * 3 + ['history'] * 2 + \
+          ['nd'] * 4 + ['equiv'] * 3
     for c in ownership_cases(rng, max(1, budget // 2500)):
         yield c
     for _ in range(budget):
@@ -1677,6 +1946,10 @@ def gen_cases(ctx, budget):
             yield case_fromintv(rng, exact)
         elif op == 'fromgrid':
             yield case_fromgrid(rng, exact)
+        elif op == 'nd':
+            yield case_nd(rng, exact)
+        elif op == 'equiv':
+            yield case_equiv(rng, exact)
         else:
             yield case_nonuniform(rng, exact)
 
@@ -1778,6 +2051,12 @@ def replay(ctx, rp):
                 for a in rp['axes']]
         fw = rp['flags']
         c = run_fromintv(axes, unwire_flags(fw), fw, flag_class(fw, len(axes)), exact, rp)
+    elif op == 'nd':
+        c = run_nd(desc_unjson(rp['part']), exact, rp)
+    elif op == 'equiv':
+        axes = [dict(n=a['n'], bl=a['bl'], br=a['br'], lo=core.pfrac(a['lo']), hi=core.pfrac(a['hi']))
+                for a in rp['axes']]
+        c = run_equiv(axes, exact, rp)
     elif op == 'fromgrid':
         un = lambda l: [None if t == 'N' else core.pfrac(t) for t in l]  # noqa
         c = run_fromgrid([[core.pfrac(v) for v in r] for r in rp['c']], un(rp['min']), un(rp['max']), exact, rp)
